@@ -24,6 +24,18 @@ func (r *recorder) ev(m map[string]interface{}) int {
 	return n
 }
 
+// evf: the event is BUILT under the recorder's mutex, so state read into it (lengths, counts) is ordered with the log
+func (r *recorder) evf(build func() map[string]interface{}) int {
+	r.mu.Lock()
+	m := build()
+	r.seq++
+	m["seq"] = r.seq
+	r.evs = append(r.evs, m)
+	n := r.seq
+	r.mu.Unlock()
+	return n
+}
+
 func (r *recorder) flush(w *ndWriter) int {
 	r.mu.Lock()
 	defer r.mu.Unlock()
